@@ -338,6 +338,10 @@ class ANF:
             cur = self.eval(_load(s.target), env, cond, loops)
             operand = self.eval(s.value, env, cond, loops)
             v = self.binop(s.op, cur, operand)
+            if isinstance(s.op, ast.BitOr) and isinstance(s.target, ast.Name) and _setlike(cur):
+                # s |= x on a set is s.update(x): recorded as that call, so that both spellings give the same events
+                fn_ = ("attr", cur, "update")
+                self.ev("call", s, cond, loops, fn=fn_, term=("call", fn_, (operand,), ()), args=(operand,), kw=())
             self._aug = (AC_OPS.get(type(s.op)) or BIN_OPS.get(type(s.op)), operand)
             try:
                 self.assign(s.target, v, env, cond, loops, s, aug=True)
@@ -517,7 +521,7 @@ class ANF:
 
     def assign(self, t, v, env, cond, loops, stmt, aug=False):
         if isinstance(t, ast.Name):
-            env[t.id] = C(self.consts[t.id]) if t.id in self.consts and not aug else v
+            env[t.id] = v           # (a parameter assumed constant for this run takes the new value when the function rebinds it)
             return
         if isinstance(t, (ast.Tuple, ast.List)):
             stars = [k for k, e in enumerate(t.elts) if isinstance(e, ast.Starred)]
@@ -1263,6 +1267,27 @@ def _lift(v):
     if isinstance(v, (list, tuple)):
         return ("tuple" if isinstance(v, tuple) else "list", tuple(_lift(x) for x in v))
     return C(v)
+
+
+def _setlike(t):
+    """term that denotes a Python set"""
+    if not isinstance(t, tuple) or not t:
+        return False
+    if t[0] == "set" or (t[0] == "new" and t[2] == "set") or (t[0] == "comp" and t[1] == "SetComp"):
+        return True
+    if t[0] == "call" and t[1] in (("x", "builtins.set"), ("x", "builtins.frozenset")):
+        return True
+    if t[0] == "carried":
+        return _setlike(t[2])
+    if t[0] == "ite":
+        return _setlike(t[2]) or _setlike(t[3])
+    if t[0] == "merge":
+        return _setlike(t[2]) or _setlike(t[3])
+    if t[0] == "opn" and t[1] == "|":
+        return any(_setlike(x) for x in t[2])
+    if t[0] == "op" and t[1] in ("|", "-", "&"):
+        return _setlike(t[2])
+    return False
 
 
 def _listlike(t):
